@@ -848,3 +848,146 @@ def featurizer_battery_replay(fes, params, features, states=()):
                     if len(out["failures"]) < 3:
                         out["failures"].append({"levels": list(lv1), "n_fit": n_fit, "unexpected_in_fit": unexpected_in_fit, **{k: (v if isinstance(v, (str, int, float, list, bool)) else str(v)) for k, v in bad.items()}})
     return out
+
+
+def unexpected_id_replay(parts, district):
+    """REAL CombinedDataHandler._get_unexpected_units: a feed unit outside the baseline whose id has the given components
+    (joined by '_'); its county / district columns must be the components the statement names"""
+    import re
+
+    from elexmodel.handlers.data.CombinedData import CombinedDataHandler
+
+    clean = []
+    for i, p in enumerate(parts):
+        p = re.sub(r"[^A-Za-z0-9]", "", str(p or ""))
+        clean.append(p if p else f"p{i}")
+    # distinct components make a wrong split visible
+    clean = [c if clean.count(c) == 1 else f"{c}{i}" for i, c in enumerate(clean)]
+    uid = "_".join(clean)
+    cols = ["postal_code", "geographic_unit_fips", "percent_expected_vote", "baseline_weights", "turnout_factor", "results_weights", "results_turnout", "last_election_results_turnout"]
+    rows = [{"postal_code": "ZZ", "geographic_unit_fips": f"F_{i}", "percent_expected_vote": 100.0, "baseline_weights": 100.0, "turnout_factor": 1.0, "results_weights": 100.0, "results_turnout": 100.0, "last_election_results_turnout": 101.0} for i in range(2)]
+    feed_rows = [{"postal_code": "ZZ", "geographic_unit_fips": f"F_{i}", "percent_expected_vote": 100.0, "results_turnout": 100.0} for i in range(2)]
+    feed_rows.append({"postal_code": "ZZ", "geographic_unit_fips": uid, "percent_expected_vote": 50.0, "results_turnout": 7.0})
+    h = CombinedDataHandler.__new__(CombinedDataHandler)
+    h.estimands = ["turnout"]
+    h.data = pd.DataFrame(rows, columns=cols)
+    h.current_data = pd.DataFrame(feed_rows, columns=["postal_code", "geographic_unit_fips", "percent_expected_vote", "results_turnout"])
+    h.preprocessed_data = h.data
+    h.geographic_unit_type = "precinct-district" if district else "precinct"
+    aggs = ["postal_code", "county_fips", "district", "unit"] if district else ["postal_code", "county_fips", "unit"]
+    out = {"exc": None, "id": uid}
+    try:
+        un = h._get_unexpected_units(aggs)
+        row = un[un.geographic_unit_fips == uid]
+        out["county_fips"] = [str(x) for x in row.county_fips] if "county_fips" in row else None
+        out["district"] = [str(x) for x in row.district] if "district" in row else None
+        want_county = clean[1] if district else clean[0]
+        ok = out["county_fips"] == [want_county]
+        if district:
+            ok = ok and out["district"] == [clean[0]]
+        out["ok"] = bool(ok)
+        out["want_county"] = want_county
+    except Exception as e:  # noqa
+        out["exc"] = f"{type(e).__name__}: {e}"
+        out["ok"] = False
+    return out
+
+
+def two_estimands_replay(alpha=0.9):
+    """REAL NonparametricElectionModel: unit intervals of a second estimand computed on the SAME model object right after
+    a first estimand must equal the intervals a fresh model object computes for it (no state carried over)"""
+    from elexmodel.models.NonparametricElectionModel import NonparametricElectionModel
+
+    rng = np.random.default_rng(7)
+    n_rep, n_non = 60, 12
+
+    def frame(n, rep):
+        last_t = rng.integers(500, 5000, n).astype(float)
+        last_d = np.round(last_t * rng.uniform(0.3, 0.7, n))
+        df = pd.DataFrame({"postal_code": "AA", "geographic_unit_fips": [f"{'r' if rep else 'n'}{i}" for i in range(n)], "reporting": int(rep), "unit_category": "expected"})
+        df["last_election_results_turnout"], df["last_election_results_dem"] = last_t + 1, last_d + 1
+        # very different residual scales for the two estimands, so that a carried-over correction is visible
+        df["results_turnout"] = np.round(last_t * (1 + rng.normal(0, 0.02, n))) if rep else np.round(last_t * 0.1)
+        df["results_dem"] = np.round(last_d * (1 + rng.normal(0.1, 0.4, n)).clip(0.05)) if rep else np.round(last_d * 0.1)
+        for e in ("turnout", "dem"):
+            df[f"residuals_{e}"] = (df[f"results_{e}"] - df[f"last_election_results_{e}"]) / df[f"last_election_results_{e}"]
+        return df
+
+    rep, non = frame(n_rep, True), frame(n_non, False)
+    out = {"exc": None}
+    try:
+        # the client's sequence per estimand: unit predictions, then unit intervals
+        shared = NonparametricElectionModel({})
+        shared.get_unit_predictions(rep, non, "turnout")
+        shared.get_unit_prediction_intervals(rep, non, alpha, "turnout")
+        shared.get_unit_predictions(rep, non, "dem")
+        second = shared.get_unit_prediction_intervals(rep, non, alpha, "dem")
+        fm = NonparametricElectionModel({})
+        fm.get_unit_predictions(rep, non, "dem")
+        fresh = fm.get_unit_prediction_intervals(rep, non, alpha, "dem")
+        out["same_lower"] = bool(np.array_equal(np.asarray(second.lower), np.asarray(fresh.lower)))
+        out["same_upper"] = bool(np.array_equal(np.asarray(second.upper), np.asarray(fresh.upper)))
+        out["ok"] = out["same_lower"] and out["same_upper"]
+        if not out["ok"]:
+            out["first_difference"] = [float(np.asarray(second.upper)[0]), float(np.asarray(fresh.upper)[0])]
+    except Exception as e:  # noqa
+        out["exc"] = f"{type(e).__name__}: {e}"
+        out["ok"] = False
+    return out
+
+
+def uniform_swing_request_replay(lambda_=3.0):
+    """REAL ConformalElectionModel.get_unit_predictions without covariates, the solver replaced by a recording double
+    with the INSTALLED signature: the request must be the unregularised weighted-median problem (intercept fitted and
+    not regularised) whatever lambda_ is, and the predictions must be one common factor"""
+    import inspect
+
+    from elexsolver.QuantileRegressionSolver import QuantileRegressionSolver
+
+    from elexmodel.models.NonparametricElectionModel import NonparametricElectionModel
+
+    sig = inspect.signature(QuantileRegressionSolver.fit)
+    log = []
+    real_fit = QuantileRegressionSolver.fit
+
+    def fit(self, *a, **k):
+        b = sig.bind(self, *a, **k)
+        b.apply_defaults()
+        log.append({n: (v if isinstance(v, (bool, int, float)) else type(v).__name__) for n, v in b.arguments.items() if n != "self"})
+        return real_fit(self, *a, **k)
+
+    rng = np.random.default_rng(2)
+    n_rep, n_non = 30, 6
+
+    def frame(n, rep):
+        last = rng.integers(500, 5000, n).astype(float)
+        df = pd.DataFrame({"postal_code": "AA", "geographic_unit_fips": [f"{'r' if rep else 'n'}{i}" for i in range(n)], "reporting": int(rep), "unit_category": "expected"})
+        df["last_election_results_turnout"] = last + 1
+        df["results_turnout"] = np.round(last * (1 + rng.normal(0.05, 0.1, n))) if rep else np.round(last * 0.1)
+        df["residuals_turnout"] = (df["results_turnout"] - df["last_election_results_turnout"]) / df["last_election_results_turnout"]
+        return df
+
+    rep, non = frame(n_rep, True), frame(n_non, False)
+    out = {"exc": None}
+    QuantileRegressionSolver.fit = fit
+    try:
+        m = NonparametricElectionModel({"lambda_": lambda_})
+        preds, _ = m.get_unit_predictions(rep, non, "turnout")
+        req = log[0]
+        out["request"] = {k: req[k] for k in ("taus", "lambda_", "fit_intercept", "regularize_intercept", "n_feat_ignore_reg") if k in req}
+        ok_req = req.get("regularize_intercept") is False and req.get("fit_intercept") is True and req.get("n_feat_ignore_reg", 0) == 0
+        # uniform swing: (pred - last) / last is the same number for every outstanding unit (before the floor / rounding)
+        from elexmodel.utils.math_utils import weighted_median
+
+        w = (rep.last_election_results_turnout / rep.last_election_results_turnout.sum()).to_numpy()
+        med = weighted_median(rep.residuals_turnout.to_numpy(), w)
+        want = np.maximum(np.round(non.last_election_results_turnout * (1 + med)), non.results_turnout)
+        close = bool(np.all(np.abs(np.asarray(preds) - np.asarray(want)) <= np.maximum(2.0, 0.01 * np.asarray(want))))
+        out["predictions_are_the_weighted_median_swing"] = close
+        out["ok"] = bool(ok_req and close)
+    except Exception as e:  # noqa
+        out["exc"] = f"{type(e).__name__}: {e}"
+        out["ok"] = False
+    finally:
+        QuantileRegressionSolver.fit = real_fit
+    return out
